@@ -32,6 +32,13 @@ INT, FLT, ARR, TAB, CX, CARR, CTAB = "int", "float", "arr", "tab", "cx", "carr",
 LEAN_TY = {INT: "Int", FLT: "α", ARR: "Nat", TAB: "Int → α", CX: "Cx α", CARR: "Nat", CTAB: "Int → Cx α"}
 
 
+class Rejoin(Exception):
+    """a scalar local is assigned values of different numeric kinds: restart with the join"""
+
+    def __init__(self, name, kind):
+        self.name, self.kind = name, kind
+
+
 class Retype(Exception):
     """an array turned out to hold complex numbers (a complex value is stored into it): restart with that knowledge"""
 
@@ -58,6 +65,9 @@ class KTr:
         self.dims2 = set(dims2)          # names of 2-d (C-contiguous) array parameters
         self.shape_params = []           # extra Int parameters  <arr>_shape<k>
         self.uses_cpowi = False          # the kernel uses complex ** int (library operation: a parameter `cpowi`)
+        self.uses_imsqrt = False         # the kernel uses np.sqrt(complex).imag (library operation: a parameter `imsqrt`)
+        self.uses_fuel = False           # the kernel has a `while` loop (translated with a fuel parameter)
+        self.join_kinds = {}             # locals whose assignments have different kinds: the join (int < float < complex)
         self.fd = self.eliminate_views(fd)
 
     # ------------------------------------------------------------------ numpy views -> direct accesses
@@ -70,6 +80,15 @@ class KTr:
         outer = self
 
         class Sh(ast.NodeTransformer):
+            def visit_Attribute(s2, node):
+                node = s2.generic_visit(node)
+                if node.attr == "size" and isinstance(node.value, ast.Name):
+                    n = f"{node.value.id}_size"
+                    if lean_ident(n) not in outer.shape_params:
+                        outer.shape_params.append(lean_ident(n))
+                    return ast.copy_location(ast.Name(id=n, ctx=ast.Load()), node)
+                return node
+
             def visit_Subscript(s2, node):
                 node = s2.generic_visit(node)
                 v = node.value
@@ -207,6 +226,8 @@ class KTr:
                 return INT
             if isinstance(e.value, float):
                 return FLT
+            if isinstance(e.value, complex):
+                return CX
             raise TranslationError(f"constant {e.value!r}")
         if isinstance(e, ast.Name):
             n = lean_ident(e.id)
@@ -216,6 +237,8 @@ class KTr:
                 return FLT
             raise TranslationError(f"unknown name {e.id} in {self.fd.name}")
         if isinstance(e, ast.Attribute):
+            if e.attr == "imag" and isinstance(e.value, ast.Call) and ast.unparse(e.value.func) == "np.sqrt" and self.typeof(e.value.args[0]) == CX:
+                return FLT      # np.sqrt(z).imag : library complex square root -> parameter `imsqrt`
             if e.attr in ("real", "imag") and self.typeof(e.value) == CX:
                 return FLT
             a = self.attr_local(e)
@@ -294,8 +317,33 @@ class KTr:
         tr.expr = expr
         return tr.expr(e2)
 
+    def flit(self, v):
+        if v == int(v) and abs(v) < 2 ** 53:
+            return f"(Scalar.ofInt ({int(v)} : Int) : α)"
+        if v == 0.5:
+            return "(Scalar.half : α)"
+        raise TranslationError(f"float literal {v!r}")
+
+    @staticmethod
+    def const_value(e):
+        """value of an expression made of numeric literals only (the compiler folds it), else None"""
+        if isinstance(e, ast.Constant) and isinstance(e.value, (int, float, complex)) and not isinstance(e.value, bool):
+            return e.value
+        if isinstance(e, ast.UnaryOp) and isinstance(e.op, ast.USub):
+            v = KTr.const_value(e.operand)
+            return None if v is None else -v
+        if isinstance(e, ast.BinOp) and isinstance(e.op, (ast.Add, ast.Sub, ast.Mult)):
+            a, b = KTr.const_value(e.left), KTr.const_value(e.right)
+            if a is None or b is None:
+                return None
+            return a + b if isinstance(e.op, ast.Add) else (a - b if isinstance(e.op, ast.Sub) else a * b)
+        return None
+
     def cexpr(self, e):
         """complex-valued Lean term of type `Cx α`, with numba's promotion of the real operand at each operation"""
+        cv = self.const_value(e)
+        if isinstance(cv, complex):
+            return f"(Cx.mk {self.flit(cv.real)} {self.flit(cv.imag)})"
         k = self.typeof(e)
         if k == INT:
             return f"(Cx.ofRe (Scalar.ofInt {self.iexpr(e)} : α))"
@@ -339,6 +387,33 @@ class KTr:
                         raise TranslationError(f"non-integer condition {ast.unparse(e)}")
         return self.int_tr().cond(e)
 
+    def bcond(self, e):
+        """Bool-valued Lean term for a condition that compares floats (numba's comparisons: false on NaN)"""
+        if isinstance(e, ast.BoolOp):
+            op = " && " if isinstance(e.op, ast.And) else " || "
+            return "(" + op.join(self.bcond(v) for v in e.values) + ")"
+        if isinstance(e, ast.UnaryOp) and isinstance(e.op, ast.Not):
+            return f"(!{self.bcond(e.operand)})"
+        if isinstance(e, ast.Compare) and len(e.ops) == 1:
+            a, b = e.left, e.comparators[0]
+            if self.typeof(a) == INT and self.typeof(b) == INT:
+                return f"(decide {self.icond(e)})"
+            fa, fb = self.fexpr(a), self.fexpr(b)
+            op = e.ops[0]
+            if isinstance(op, ast.Lt):
+                return f"(Scalar.lt {fa} {fb})"
+            if isinstance(op, ast.Gt):
+                return f"(Scalar.lt {fb} {fa})"
+            if isinstance(op, ast.LtE):
+                return f"(Scalar.le {fa} {fb})"
+            if isinstance(op, ast.GtE):
+                return f"(Scalar.le {fb} {fa})"
+            if isinstance(op, ast.Eq):
+                return f"(Scalar.beq {fa} {fb})"
+            if isinstance(op, ast.NotEq):
+                return f"(!(Scalar.beq {fa} {fb}))"
+        raise TranslationError(f"condition {ast.unparse(e)}")
+
     def fexpr(self, e):
         """float-valued Lean term of type α"""
         k = self.typeof(e)
@@ -347,12 +422,7 @@ class KTr:
         if k != FLT:
             raise TranslationError(f"{ast.unparse(e)} used as a float")
         if isinstance(e, ast.Constant):
-            v = e.value
-            if v == int(v) and abs(v) < 2 ** 53:
-                return f"(Scalar.ofInt ({int(v)} : Int) : α)"
-            if v == 0.5:
-                return "(Scalar.half : α)"
-            raise TranslationError(f"float literal {v!r}")
+            return self.flit(e.value)
         if isinstance(e, ast.Name):
             n = lean_ident(e.id)
             if n in self.kinds:
@@ -361,6 +431,9 @@ class KTr:
                 return "(Scalar.inv4pi : α)"
             return f"({n} (α := α))"
         if isinstance(e, ast.Attribute):
+            if e.attr == "imag" and isinstance(e.value, ast.Call) and ast.unparse(e.value.func) == "np.sqrt":
+                self.uses_imsqrt = True
+                return f"(imsqrt {self.cexpr(e.value.args[0])})"
             return f"{self.cexpr(e.value)}.{'re' if e.attr == 'real' else 'im'}"
         if isinstance(e, ast.Subscript):
             return self.read(e)
@@ -466,6 +539,14 @@ class KTr:
             return out | names_loaded(s.target) | names_loaded(s.value)
         if isinstance(s, ast.If):
             return names_loaded(s.test) | self.live_in(s.body, out) | self.live_in(s.orelse, out)
+        if isinstance(s, ast.While):
+            head = set(out) | names_loaded(s.test)
+            while True:
+                new = head | self.live_in(s.body, head)
+                if new == head:
+                    break
+                head = new
+            return head
         if isinstance(s, ast.For):
             v = lean_ident(s.target.id)
             if isinstance(s.iter, ast.List):
@@ -512,7 +593,13 @@ class KTr:
 
     def set_kind(self, n, k):
         old = self.kinds.get(n)
+        if n in self.join_kinds:
+            k = self.join_kinds[n]
         if old is not None and old != k:
+            order = [INT, FLT, CX]
+            if old in order and k in order:
+                # numba gives the variable the join of the kinds of all its assignments: restart with that knowledge
+                raise Rejoin(n, order[max(order.index(old), order.index(k))])
             raise TranslationError(f"local {n} changes kind {old} -> {k} in {self.fd.name}")
         self.kinds[n] = k
 
@@ -533,6 +620,8 @@ class KTr:
             if isinstance(t, ast.Name):
                 n = lean_ident(t.id)
                 k = self.typeof(s.value)
+                if n in self.join_kinds and k in (INT, FLT, CX):
+                    k = self.join_kinds[n]
                 if k == ARR:
                     v = lean_ident(s.value.id)
                 elif k == INT:
@@ -540,7 +629,7 @@ class KTr:
                 elif k == FLT:
                     v = self.fexpr(s.value)
                 elif k == CX:
-                    v = self.cexpr(s.value)
+                    v = self.cexpr(s.value)     # (a real or integer value assigned to a complex variable is promoted)
                 else:
                     raise TranslationError(f"assignment of a {k}: {ast.unparse(s)}")
                 self.set_kind(n, k)
@@ -601,6 +690,39 @@ class KTr:
                 lines.append(f"{pad}let {outs[0]} : {ty} := {q}")
             else:
                 lines += self.unpack(q, outs, pad)
+            return lines
+        if isinstance(s, ast.While):
+            if s.orelse:
+                raise TranslationError("while-else")
+            head = set(live_after) | names_loaded(s.test)
+            while True:
+                new = head | self.live_in(s.body, head)
+                if new == head:
+                    break
+                head = new
+            mem = self.writes_mem(s.body)
+            carried = [x for x in self.assigned(s.body) if x in head]
+            for x in carried:
+                if x not in self.kinds:
+                    raise TranslationError(f"{x} is carried by a while loop but not defined before it")
+            outs = (["st"] if mem else []) + carried
+            if not outs:
+                raise TranslationError("while loop without effect")
+            self.uses_fuel = True
+            self.fresh += 1
+            pv = f"p{self.fresh}"
+            ty = self.tuple_ty(outs)
+            k0 = dict(self.kinds)
+            cond = self.bcond(s.test)
+            body = self.block(s.body, outs, ind + 2, head)
+            self.kinds = k0
+            un_in = self.unpack(pv, outs, pad + "    ") if len(outs) > 1 else [f"{pad}    let {outs[0]} : {ty} := {pv}"]
+            lines = [f"{pad}let {pv} : {ty} := loopWhile fuel (fun ({pv} : {ty}) =>"] + un_in + [f"{pad}    {cond}) (fun ({pv} : {ty}) =>"] + un_in \
+                + body[:-1] + [body[-1] + f") {self.tuple_of(outs)}"]
+            if len(outs) == 1:
+                lines.append(f"{pad}let {outs[0]} : {ty} := {pv}")
+            else:
+                lines += self.unpack(pv, outs, pad)
             return lines
         if isinstance(s, ast.For):
             if s.orelse or not isinstance(s.target, ast.Name):
@@ -719,6 +841,10 @@ class KTr:
                 if r.name in self.complex_arrays:
                     raise TranslationError(f"array {r.name}: inconsistent element kind")
                 self.complex_arrays.add(r.name)
+            except Rejoin as r:
+                if self.join_kinds.get(r.name) == r.kind:
+                    raise TranslationError(f"local {r.name}: kinds do not stabilise")
+                self.join_kinds[r.name] = r.kind
 
     def translate_once(self, lean_name=None):
         fd = self.fd
@@ -742,6 +868,10 @@ class KTr:
         ps = " ".join(f"({p} : {LEAN_TY[self.kinds[p]]})" for p in allp)
         if self.uses_cpowi:
             ps += " (cpowi : Cx α → Int → Cx α)"
+        if self.uses_imsqrt:
+            ps += " (imsqrt : Cx α → α)"
+        if self.uses_fuel:
+            ps += " (fuel : Nat)"
         src = ast.get_source_segment(self.src_text, fd) if getattr(self, "src_text", None) else None
         text = f"def {name} {ps} (st : φ) : φ :=\n" + "\n".join(lines) + "\n"
         return Kernel(nfkc(fd.name) if lean_name is None else lean_name, allp, {p: self.kinds[p] for p in allp}), text
@@ -859,6 +989,18 @@ def generate_hornerkern(fns, gen_dir, write_if_changed):
     out.append(txt)
     out.append("end\nend Gen\n")
     write_if_changed(os.path.join(gen_dir, "HornerKern.lean"), "\n".join(out))
+    return {k.name: [(p, k.kinds[p]) for p in k.params]}
+
+
+def generate_cpowkern(fns, gen_dir, write_if_changed):
+    path = "spherical/recursions/complex_powers.py"
+    tree = ast.parse(open(os.path.join(REPO, path), encoding="utf-8").read())
+    out = [FILL_HEADER.format(src=path + " (_complex_powers)").replace("The kernels that turn the H wedge into results", "The complex-powers kernel")]
+    fd = find_function(tree, "_complex_powers")
+    k, txt = KTr(fns, {}, set(), fd, complex_arrays={"zravel", "zpowers"}, dims2={"zpowers"}).translate()
+    out.append(txt)
+    out.append("end\nend Gen\n")
+    write_if_changed(os.path.join(gen_dir, "CPowKern.lean"), "\n".join(out))
     return {k.name: [(p, k.kinds[p]) for p in k.params]}
 
 
